@@ -117,6 +117,8 @@ class C17(WigBedProp):
             bw = os.path.join(d, f"i{k}.bw")
             subprocess.run([repo_bin("bedgraphtobigwig"), bg, sz, bw], capture_output=True)
             nreg = r.choice([3, 40, 200])          # fewer regions than threads, and many more
+            if k == 1:
+                nreg = 6000                        # ≈ 150 KiB of BED text: every worker's chunk spans several buffer refills
             regs = []
             for i in range(nreg):
                 n = r.choice(names)
@@ -134,6 +136,8 @@ class C17(WigBedProp):
                 for (n, a, b, name, sc) in regs:
                     f.write(f"{n}\t{a}\t{b}\t{name}\t{sc}\n")
             for mode in (["-n", "4"], ["-n", "interval"], ["-n", "none"], []):
+                if nreg > 1000 and mode != ["-n", "4"]:
+                    continue
                 for mm in ([], ["--min-max"]):
                     ref = None
                     for t in (1, 2, 3, 8, 16):
@@ -152,6 +156,8 @@ class C17(WigBedProp):
                                           f"# bigwigaverageoverbed {' '.join(mode + mm)} -t {t} differs from -t 1 on {bw} {bed} ({nreg} regions)\n"
                                           f"# exit {p.returncode} stderr {p.stderr[-200:]}\n")
             # values over bed
+            if nreg > 1000:
+                continue
             outp = os.path.join(d, f"v{k}.txt")
             subprocess.run([repo_bin("bigwigvaluesoverbed"), bw, bed, outp], capture_output=True, text=True, timeout=120)
             nrun += 1
